@@ -473,6 +473,13 @@ DefFacts == /\ QLe(Zero, Cur.var) /\ QLe(Zero, Cur.spread)
             /\ (Cur.var = Zero <=> \A i, j \in SupportIdx(weights) : samples[i] = samples[j])
             /\ QLe(QMul(<<4, 1>>, Cur.var), QMul(Cur.spread, Cur.spread))        \* Popoviciu
             /\ CMoment(samples, weights, 1) = Zero
+(* TRANSLATION: the mean moves with the samples, central moments do not (what licenses the harness to ask for the   *)
+(* moments of the same samples moved by +-2^22 and to expect the values printed for the unmoved ones)                *)
+Shifted(s, c) == [i \in 1..Len(s) |-> QAdd(s[i], <<c, 1>>)]
+ShiftLaw == \A c \in {1, -3, 7} :
+               /\ Mean(Shifted(samples, c), weights) = QAdd(Cur.mean, <<c, 1>>)
+               /\ Variance(Shifted(samples, c), weights) = Cur.var
+               /\ CMoment(Shifted(samples, c), weights, 3) = CMoment(samples, weights, 3)
 MedianFacts == LET m == Median(samples, weights) IN         \* a median splits the weight in halves
                  m # Undef =>
                      /\ QLe(QMul(<<2, 1>>, QSum([i \in 1..N |-> IF QLt(samples[i], m) THEN weights[i] ELSE Zero])), Cur.total)
